@@ -146,7 +146,7 @@ class C19(Plugin):
         # tree case: events must be well nested and rebuild the walked tree minus comments/doctype
         if out[0] != 1:
             has_void_kids = "SerializeError" in repr(walk(case["src"], "dom", case["frag"]))
-            return [] if has_void_kids else [("not-well-nested-or-assert", repr(out))]
+            return [("serialize-error-token-asserts", "")] if has_void_kids else [("not-well-nested-or-assert", repr(out))]
         want = trees.enc_forest(trees.coalesce(trees.strip_cd(case["forest"])))
         if out[1] != want:
             cls = "sax-tree-differs"
@@ -156,7 +156,15 @@ class C19(Plugin):
         return v
 
     def classify(self, cls, case, detail):
+        if cls in ("serialize-error-token-asserts", "void-element-with-children"):
+            return "C19-serialize-error-token"
         return None
+
+    def known_witnesses(self):
+        import html5lib
+        src = "<event-source>x</event-source>"
+        p = html5lib.HTMLParser(tree=html5lib.getTreeBuilder("dom"))
+        return {"C19-serialize-error-token": {"k": 1, "src": src, "frag": True, "forest": trees.dom_forest(p.parseFragment(src))}}
 
     def nontrivial_key(self, case, out):
         if case["k"] == 1 and any(n[0] == "E" for n in case["forest"]):
